@@ -122,6 +122,10 @@ fn enabled_ops(cfg: &Cfg, m: &Model) -> Vec<String> {
         for &s in &live_slots {
             if m.spans[m.slot[s].unwrap()].handles > 0 {
                 v.push(format!("drop:{}:{}", t, s));
+                // the last handle dropped by an unwinding panic of the code that held it
+                if t == 0 && m.spans[m.slot[s].unwrap()].handles == 1 {
+                    v.push(format!("dropunwind:{}:{}", t, s));
+                }
             }
         }
     }
@@ -310,7 +314,7 @@ fn run(cfg: &Cfg, history: &[String]) -> HResult {
                 ex.handles[slot].push(c);
                 m.spans[i].handles += 1;
             }
-            "drop" => {
+            "drop" | "dropunwind" => {
                 let (t, slot): (usize, usize) = (p[1].parse().unwrap(), p[2].parse().unwrap());
                 acting_thread = Some(t);
                 let i = m.slot[slot].unwrap();
@@ -321,7 +325,7 @@ fn run(cfg: &Cfg, history: &[String]) -> HResult {
                 if m.defs[t] != 0 && expected_closes.iter().any(|c| m.spans[*c].parent.is_some()) {
                     trigger = true;
                 }
-                note_panic(ex.workers[t].call(Cmd::Drop(h)));
+                note_panic(ex.workers[t].call(if p[0] == "drop" { Cmd::Drop(h) } else { Cmd::DropUnwind(h) }));
             }
             "enter" => {
                 let (t, slot): (usize, usize) = (p[1].parse().unwrap(), p[2].parse().unwrap());
